@@ -448,8 +448,11 @@ def run(tier: str, seed: int) -> Result:
                     key = f"conn:{'noise' if noise else 'plain'}:write-refused:{type(exc).__name__}:batch{fault_at}"
                     w = ConnWorld(noise=noise)
                     try:
-                        w.connect_fully()
-                        f0 = len(w.sent_frames())
+                        try:
+                            w.connect_fully()
+                            f0 = len(w.sent_frames())
+                        except Exception:  # noqa: BLE001
+                            continue  # the plain connect sequence cannot even be read back on this tree: the sweeps above report why
                         batches = [(pb.PingRequest(),), (pb.SwitchCommandRequest(key=1, state=True), pb.SubscribeStatesRequest()),
                                    (pb.DeviceInfoRequest(),), (pb.ListEntitiesRequest(), pb.PingRequest())]
                         bad = None
